@@ -18,12 +18,25 @@ SUB_CATALOGUE = [
     {"name": "vf_wide", "ret": "uint64_t", "params": ["uint32_t p"], "body": "{ uint64_t w = p; return w << 1; }"},
     {"name": "vf_sel", "ret": "int32_t", "params": ["int32_t c", "int32_t x"], "body": "{ int32_t r = 0; if (c) { r = x; } else { r = -x; } return r; }"},
     {"name": "vf_bad", "ret": "int32_t", "params": ["int32_t c"], "body": "{ while (c) { c = c - 1; } return c; }"},
+    # bodies that access memory: a caller's attributes are those of its own text, whatever its callee does
+    {"name": "vf_st", "ret": "void", "params": ["uint32_t addr", "int32_t v"], "body": "{ EA = addr; mem_store_u32(EA, v); }"},
+    {"name": "vf_ldx", "ret": "int32_t", "params": ["uint32_t addr"], "body": "{ EA = addr; int32_t x = mem_load_s32(EA); return x; }"},
 ]
 SUB_CALLERS = {
     "vf_add3": ["{ RdV = vf_add3(RsV, RtV); }", "{ RdV = vf_add3(RsV, 1) + vf_add3(RtV, 2); }"],
     "vf_wide": ["{ RddV = vf_wide(RsV); }"],
     "vf_sel": ["{ RdV = vf_sel(PuV, RsV); }"],
+    "vf_bad": ["{ RdV = vf_bad(RsV); }"],           # its registration always raises: the call must stay rejected
+    "vf_st": ["{ vf_st(RsV, RtV); }", "{ if (PuV) { vf_st(RsV, 1); } }"],
+    "vf_ldx": ["{ RdV = vf_ldx(RsV); }", "{ RdV = vf_ldx(RsV) + vf_ldx(RtV); }"],
 }
+# statements that are the same text once whitespace is removed, or differ in one token boundary
+STMT_TWINS = [
+    ("{ int32_t t1 = RsV; RdV = t1-- - RtV; }", "{ int32_t t1 = RsV; RdV = t1 - --RtV; }"),
+    ("{ int32_t t1 = RsV; t1 <<= 2; RdV = t1; }", "{ int32_t t1 = RsV; t1 << = 2; RdV = t1; }"),
+    ("{ int32_t t2 = RsV; RdV = t2++ + RtV; }", "{ int32_t t2 = RsV; RdV = t2 + ++RtV; }"),
+    ("{ RdV = RsV & RtV; }", "{ RdV = RsV && RtV; }"),
+]
 
 
 class HistEngine(EngineBase):
@@ -46,7 +59,8 @@ class HistEngine(EngineBase):
         self.shape_keys = sorted(self.shapes)
         self._focus = None
         shape_texts = [t for v in self.shapes.values() for t in v]
-        self.extra_texts = sorted(set(self.catalogue + self.failing + self.sub_callers + gen_beh.PARSE_ERRORS + shape_texts))
+        twin_texts = [t for pair in STMT_TWINS for t in pair]
+        self.extra_texts = sorted(set(self.catalogue + self.failing + self.sub_callers + gen_beh.PARSE_ERRORS + shape_texts + twin_texts))
 
     def corpus_sample(self):
         """Corpus instructions this tier draws from (all of them when the cache is complete)."""
@@ -192,7 +206,8 @@ class HistEngine(EngineBase):
         if r == 4 and self.noped:
             return ch.choice(self.noped, "noped")
         if r == 5 and self.noped:
-            return "dep_" + ch.choice(self.noped, "noped")
+            n = ch.choice(self.noped, "noped")
+            return ch.choice(["dep_" + n, "IMPORTED_" + n, "undocumented_" + n, n + "_undocumented"], "noped-alias")
         if r in (6, 7):
             # the API takes any name: a name this history already compiled (with another behaviour), else any other one
             if used:
